@@ -79,6 +79,17 @@ impl Builder {
         Ok(reader)
     }
 
+    /// Verification hook (compiled only with `--cfg sfs_verif`): builds the reader from a
+    /// caller-supplied buffered reader, so that a harness can control how the byte stream is
+    /// delivered. Adds no behaviour of its own.
+    #[cfg(sfs_verif)]
+    pub fn build_from_bufread<R>(self, reader: R) -> io::Result<super::DynReader>
+    where
+        R: 'static + io::BufRead,
+    {
+        self.build_from_reader(reader)
+    }
+
     /// Sets the compression method of the reader.
     ///
     /// By default, the compression method will be automatically detected.
